@@ -73,6 +73,8 @@ CHECKS['C03'] = dict(
           'explicitly, KeyErrors as results). Proved for every batch of model-local mutations accepted one at a time: '
           'mutations on different models commute and the stable regrouping by model name ends in the same signature '
           '(C03_regroup_sound, C03_commute); add-then-delete elimination is semantics-preserving (C03_rule_add_delete); '
+          'the final filter drops exactly the mutations the optimiser marked, whatever the others look like '
+          '(C03_filter_by_identity; that mutations hash by identity is read from the source: C03_source_hash_identity); '
           'kernel-checked counterexamples for the rewriting of definitions and the differing second pass (F4), '
           'self-rename KeyError and name reuse (F20), initial overwrite (F21), regroup across RenameModel (F24). The '
           'transliteration is validated against the real optimiser on every applicable sequence up to length 3 (quick) '
